@@ -91,6 +91,7 @@ class RunId(object):
         self.is_failed = True
 
         self._max_invocation = 0
+        self._loaded_data_points: set = set()
         self._expandend_env = None
 
         self._hash = None
@@ -264,6 +265,13 @@ class RunId(object):
     def loaded_data_point(self, data_point, warmup):
         for persistence in self._persistence:
             persistence.loaded_data_point(data_point)
+
+        # a run that is recorded in several data files is loaded once per file,
+        # its progress and statistics count every data point once
+        key = (data_point.invocation, data_point.get_iteration())
+        if key in self._loaded_data_points:
+            return
+        self._loaded_data_points.add(key)
         self._new_data_point(data_point, warmup)
 
     def add_data_point(self, data_point, warmup):
